@@ -9,7 +9,8 @@ def run(chk, replay=None):
                 "PairForge shape (+q and -q, nothing consumed or minted) is balanced yet creates q, and refutes NoForge "
                 "for the design without a range check (OutputValueDefect.cfg). It enumerates three families with the "
                 "verdict: class (8 value classes x 4 CBOR integer forms x representatives x era/output form x position x "
-                "companion asset), pair (PairForge with magnitudes 1, 2^63, 2^64-1, 2^64 x integer forms x era/output "
+                "companion asset x encoding shape of the multi-asset map: plain, or a repeated policy / asset-name key whose "
+                "last occurrence wins, with the case quantity as both, the last or the discarded occurrence), pair (PairForge with magnitudes 1, 2^63, 2^64-1, 2^64 x integer forms x era/output "
                 "form x order) and tx (every transaction with <= 2 token inputs and <= 3 outputs over the scaled domain, "
                 "replayed under q -> q*(2^64-1)/MaxQ, which preserves sums and both range boundaries). Each case is "
                 "written byte by byte, signed, decoded by the era decoder and run through the era's whole "
@@ -21,6 +22,7 @@ def run(chk, replay=None):
         "the canonical encodings of 1 and 2^64-1 and every in-range transaction of the scaled domain must be accepted, otherwise the run is a dead driver (exit 2), not a pass",
         "in-range quantities written as bignums (tag 2) may be accepted or rejected: the property is silent",
         "spent outputs in the mock ledger state always hold admissible quantities",
+        "a repeated map key is decoded last-wins before Conway and may be rejected outright from Conway on; the verdict is about the surviving occurrence only; each pre-Conway era/output form must accept at least one repeated-key output with an in-range surviving quantity, else exit 2",
     ]
     drv = vlib.go_build("c08")
     if replay:
